@@ -26,7 +26,9 @@
       `startswith("Optional[")` (true exactly for `optShape` fields; it only selects between two renderings that
       both end with `= None`) and `endswith("= None")` (in `_get_ordered_args` / the helper methods).
     * the hierarchy is a tree (`ClassInfo.mk d bases`); the MRO of a tree-shaped hierarchy is the
-      depth-first pre-order (C3 on disjoint lists), `mro`.
+      depth-first pre-order (C3 on disjoint lists), `mro`.  Hierarchies with shared ancestors (diamonds) are covered by
+      Sem/StubDefine.lean, which reads the class objects of Sem/Define.lean (C3 linearisation); the harness runs
+      every class through both models and cross-checks them on tree-shaped classes.
     * sets (`set(required)`, `set(names) | set(bases_params)`) are lists whose order is unspecified;
       everything observable about them here is membership.
     * a signature is `params` (name, has-default) plus a separate `kw` flag for `**kwargs`; `get_base_info`
